@@ -40,9 +40,9 @@ fn build(kind: &str, text: &str, ci: bool) -> Option<Pattern> {
 }
 
 pub(crate) fn describe(p: &Pattern) -> String {
-    let (a, afp, aci) = parts(&p.anchored_regex);
-    let (pr, _, _) = parts(&p.prefix_regex);
-    format!("OK {} {} {} {}", hex(a.as_bytes()), hex(pr.as_bytes()), hex(afp.as_bytes()), if aci { 1 } else { 0 })
+    let (a, aci) = parts(&p.anchored_regex);
+    let (pr, _) = parts(&p.prefix_regex);
+    format!("OK {} {} - {}", hex(a.as_bytes()), hex(pr.as_bytes()), if aci { 1 } else { 0 })
 }
 
 #[test]
